@@ -382,7 +382,8 @@ func (c *contentValidator) ValidateRequestAccept(ch *aclrecordproto.AclAccountRe
 		return ErrInsufficientPermissions
 	}
 	record, exists := c.aclState.requestRecords[ch.RequestRecordId]
-	if !exists {
+	if !exists || record.Type != RequestTypeJoin {
+		// only join requests can be approved; a removal request is resolved by AccountRemove or RequestCancel
 		return ErrNoSuchRequest
 	}
 	acceptIdentity, err := c.keyStore.PubKeyFromProto(ch.Identity)
